@@ -18,6 +18,7 @@ import GwcsModel.Drv.C05
 import GwcsModel.Drv.C02
 import GwcsModel.Drv.C12
 import GwcsModel.Drv.C16
+import GwcsModel.Drv.C09
 open Lean Gwcs
 
 def dispatch (j : Json) : Json :=
@@ -27,6 +28,7 @@ def dispatch (j : Json) : Json :=
   | some "C19" => Gwcs.Drv.C19.handle j
   | some "C12" => Gwcs.Drv.C12.handle j
   | some "C16" => Gwcs.Drv.C16.handle j
+  | some "C09" => Gwcs.Drv.C09.handle j
   | some "C02" => Gwcs.Drv.C02.handle j
   | some "C05" => Gwcs.Drv.C05.handle j
   | some "C04" => Gwcs.Drv.C04.handle j
